@@ -20,6 +20,7 @@ import (
 	"github.com/olric-data/olric"
 	"github.com/olric-data/olric/internal/cluster/partitions"
 	"github.com/olric-data/olric/verifharness/cluster"
+	"github.com/olric-data/olric/verifharness/sched"
 	"github.com/olric-data/olric/verifharness/trace"
 )
 
@@ -44,6 +45,8 @@ type world struct {
 	hadB       map[string]bool // the key's current version was written while >= R members were present and no member left since
 	sinceLeave map[string]bool // the key was written after the last leave: its copy counts are asserted ("after joins")
 	leaves     int
+	crashes    int // members stopped abruptly at a step of a fragment move
+	unsettled  bool // a member was lost in the middle of a hand-over and the cluster has not stabilised since: reads are recorded, not judged
 	dms        map[int]olric.DMap
 	fragOp     bool // an operation was issued while a partition had a previous owner holding data
 	disturbed  int  // operations that ended in a transport error (membership was not as stable as assumed)
@@ -274,7 +277,7 @@ func (w *world) readAll(phase string) {
 				ret = classify(err)
 			}
 			w.evals++
-			w.w.Emit(trace.Ev{"t": "read", "k": k, "from": m.Index, "v": v, "ret": ret, "phase": phase})
+			w.w.Emit(trace.Ev{"t": "read", "k": k, "from": m.Index, "v": v, "ret": ret, "phase": phase, "settled": !w.unsettled})
 		}
 	}
 }
@@ -348,6 +351,7 @@ type summary struct {
 	Scenarios          int      `json:"scenarios"`
 	DistinctNontrivial int      `json:"distinct_nontrivial"`
 	NotStabilised      int      `json:"not_stabilised"`
+	Crashes            int      `json:"crashes_at_move_steps"`
 	Disturbed          int      `json:"transport_errors"`
 	Notes              []string `json:"notes"`
 	Samples            []any    `json:"samples"`
@@ -361,12 +365,15 @@ func writeSummary(out, name string, s *summary) {
 
 // TestC03 : joins (and leaves, for R >= 2) with operations placed after the routing push but before any
 // table moved, between table moves and after; every read from every member is logged at each point.
+var crashPoints = []string{"move.exported", "move.sent", "merge.locked", "merge.conflict", "merge.done"}
+
 func TestC03(t *testing.T) {
 	out := os.Getenv("VERIF_OUT")
 	if out == "" {
 		t.Skip("VERIF_OUT not set")
 	}
 	rng := rand.New(rand.NewSource(int64(envInt("VERIF_SEED", 1))))
+	ctl := sched.Install(int64(envInt("VERIF_SEED", 1)))
 	nscen := envInt("VERIF_SCENARIOS", 12)
 	tw, err := trace.New(filepath.Join(out, "c03.ndjson"))
 	if err != nil {
@@ -416,6 +423,7 @@ func TestC03(t *testing.T) {
 				ok := true
 				for e := 0; e < events && ok && !w.wedged; e++ {
 					canLeave := R >= 2 && len(c.Live()) > R
+					joined := false
 					if canLeave && rng.Intn(3) == 0 {
 						// a leave: only keys whose newest version is on R distinct members stay asserted
 						if err := c.WaitStable(15*time.Second, false); err != nil {
@@ -438,6 +446,7 @@ func TestC03(t *testing.T) {
 						}
 					} else if len(c.Live()) < 5 {
 						desc = append(desc, "join")
+						joined = true
 						ttlKeys, ttlDeadline := w.plantExpiring("before the join")
 						w.step("join")
 						if _, err := c.AddMember(); err != nil {
@@ -457,6 +466,46 @@ func TestC03(t *testing.T) {
 					w.ops(12, "after push, before any move")
 					w.readAll("after push and operations")
 					for mv := 1; mv <= 2; mv++ {
+						if mv == 1 && joined && R >= 2 && len(c.Live()) > R && rng.Intn(2) == 0 {
+							// a crash of the sender or of the receiver at one step of a fragment move: the member that
+							// reaches the chosen point first is stopped abruptly while its goroutine is held there
+							point := crashPoints[rng.Intn(len(crashPoints))]
+							w.beforeLoss(nil)
+							names := map[string]bool{}
+							for _, m := range c.Live() {
+								names[m.Name] = true
+							}
+							g := ctl.Hold(point, rng.Intn(3), func(kv []any) bool {
+								n, _ := kv[0].(string)
+								return names[n]
+							})
+							go c.Balance()
+							if kv, hit := g.WaitArrived(3 * time.Second); hit {
+								victim := c.ByName(kv[0].(string))
+								desc = append(desc, fmt.Sprintf("crash(%d at %s)", victim.Index, point))
+								w.step(desc[len(desc)-1])
+								delete(w.dms, victim.Index)
+								stopped := make(chan struct{})
+								go func() { c.Stop(victim, false); close(stopped) }()
+								select {
+								case <-stopped:
+								case <-time.After(8 * time.Second):
+								}
+								g.Release()
+								w.leaves++
+								w.crashes++
+								w.unsettled = true
+								w.sinceLeave = map[string]bool{}
+								w.hadB = map[string]bool{}
+								if !w.waitViews() {
+									ok = false
+									break
+								}
+								w.readAll("after a crash at " + point)
+							} else {
+								g.Release()
+							}
+						}
 						c.Balance()
 						if !w.waitViews() {
 							ok = false
@@ -479,6 +528,7 @@ func TestC03(t *testing.T) {
 						break
 					}
 					w.step("stable")
+					w.unsettled = false
 					w.readAll("stable")
 					w.copyCounts("stable", true)
 					w.ops(10, "after stabilisation")
@@ -488,6 +538,7 @@ func TestC03(t *testing.T) {
 				mu.Lock()
 				sum.Evaluations += w.evals
 				sum.Disturbed += w.disturbed
+				sum.Crashes += w.crashes
 				sum.Scenarios++
 				sum.Configs = append(sum.Configs, label+" "+fmt.Sprint(desc))
 				if ok && w.fragOp {
